@@ -241,6 +241,53 @@ theorem C16_failure_sticks (accept : Bool) (prim : Primary) (sb : SecBlock) :
       · exact C16_failure_sticks accept prim sb ts _ (ix + 1)
       · exact C16_failure_sticks accept prim sb ts _ (ix + 1)
 
+/-- **Duplicate parameter ids, or duplicate result ids for one target, fail closed**: nothing is
+    decrypted, no block is rewritten. -/
+theorem C16_duplicate_ids_fail (accept : Bool) (b : Bundle) (sb : SecBlock)
+    (h : hasDup sb.paramIds = true ∨ sb.results.any (fun r => hasDup (r.map (·.1))) = true) :
+    verifyBcb P store crcFn accept b sb = (.failed 15, b.blocks) := by
+  have hc : checkSecblk sb = .failed 15 := by
+    unfold checkSecblk
+    rcases h with h | h <;> simp [h]
+  simp [verifyBcb, hc]
+
+private theorem verifyBcbLoop_bad_result (accept : Bool) (prim : Primary) (sb : SecBlock) :
+    ∀ (ts : List Nat) (blocks : List Canonical) (ix : Nat) (fail : Bool) (j : Nat), j < ts.length →
+      (∀ id m, sb.results[ix + j]? ≠ some [(id, m)]) →
+      (verifyBcbLoop P store crcFn accept prim sb ts blocks ix fail).1 ≠ .ok
+  | [], _, _, _, j, hj, _ => by simp at hj
+  | t :: ts, blocks, ix, fail, j, hj, hbad => by
+    unfold verifyBcbLoop
+    split
+    · simp
+    · split
+      · simp
+      · rename_i hres
+        cases j with
+        | zero => exact absurd hres (by simpa using hbad _ _)
+        | succ j =>
+          apply verifyBcbLoop_bad_result accept prim sb ts _ (ix + 1) _ j (by simpa using hj)
+          intro id m
+          have e : ix + 1 + j = ix + (j + 1) := by omega
+          rw [e]
+          exact hbad id m
+      · cases j with
+        | zero => exact C16_failure_sticks P store crcFn accept prim sb ts _ (ix + 1)
+        | succ j => exact C16_failure_sticks P store crcFn accept prim sb ts _ (ix + 1)
+
+/-- **More (or fewer) than one result for a target fails closed**, with or without acceptance and
+    wherever the genuine result stands among them: `verify_bcb` cannot return "no failure". -/
+theorem C16_result_count_fails (accept : Bool) (b : Bundle) (sb : SecBlock) (j : Nat) (hj : j < sb.targets.length)
+    (hbad : ∀ id m, sb.results[j]? ≠ some [(id, m)]) :
+    (verifyBcb P store crcFn accept b sb).1 ≠ .ok := by
+  unfold verifyBcb
+  cases hc : checkSecblk sb with
+  | failed n => simp
+  | raised => simp
+  | ok =>
+    simp only
+    exact verifyBcbLoop_bad_result P store crcFn accept b.primary sb sb.targets b.blocks 0 false j hj (by simpa using hbad)
+
 /-- What `verify_bcb` requires of target number `t` at index `ix` (blocks as received). -/
 def BcbTargetOk (b : Bundle) (sb : SecBlock) (ix t : Nat) : Prop :=
   ∃ tgt id m, findBlock b.blocks t = some tgt ∧ sb.results[ix]? = some [(id, m)] ∧
